@@ -8,6 +8,7 @@ TARGETS = {
 CHECKS = {
     "C13": dict(
         promote=True,   # thorough bounds cost seconds: used for the quick tier as well
+        deep=True,      # the thorough tier adds --deep (larger searches, see bounds)
         level="model_checking",
         runs=[dict(name="heap", target="h_heap", args=[], quick=[], thorough=[])],
         deadline=dict(quick=150, thorough=600),
